@@ -91,6 +91,14 @@ def canon_decision(term, edges):
     return term, val
 
 
+def clip(term, n=160):
+    """long terms are shortened for display but keep a digest of the whole, so a change in the cut-off tail still changes the row"""
+    if len(term) <= n:
+        return term
+    import hashlib
+    return term[:n] + '..#' + hashlib.sha1(term.encode()).hexdigest()[:10]
+
+
 def is_try_switch(fn, d):
     """switch on the ControlFlow discriminant of a `?` (Try::branch): error propagation, not a rule decision"""
     t = fn.B[d]['t']
@@ -130,7 +138,7 @@ def decisions_for_block(fn, T, L, k=2):
                 edges.append('else(' + ','.join(str(v) for v, _ in t['ts']) + ')')
             if edges and not is_try_switch(fn, d):
                 term, edge = canon_decision(anonymise(fn, T.op_term(fn, t['d'])), '|'.join(edges))
-                out.append('%s -> %s' % (term[:200], edge))
+                out.append('%s -> %s' % (clip(term), edge))
         cur = d
     return tuple(out)
 
@@ -149,7 +157,7 @@ def bool_assignments(fn, T, k=2):
                 term = T.call_term(fn, d[1])
             else:
                 continue
-            rows[('bool-assign', (canon_term(anonymise(fn, term))[:200],) + decisions_for_block(fn, T, d[1], k))] += 1
+            rows[('bool-assign', (clip(canon_term(anonymise(fn, term))),) + decisions_for_block(fn, T, d[1], k))] += 1
     return rows
 
 
